@@ -95,7 +95,7 @@ class Out:
         totals["states"] += self.states
         totals["byact"].update(self.byact)
         for s in self.samples:
-            if len(totals["samples"]) < 40:
+            if len(totals["samples"]) < 40 or ("records_after" in s and sum("records_after" in x for x in totals["samples"]) < 3):
                 totals["samples"].append(s)
 
 
@@ -261,7 +261,7 @@ class Replayer:
             out.fail(nkey, self.detail(view, chain, "Query", args, call_kwargs=nowin, expected=len(obs), observed=n, api="num_matches"), "num_matches differs")
         if ln is not None and ln != len(obs):
             out.fail(self.key("Query", args, db, "len"), self.detail(view, chain, "Query", args, expected=len(obs), observed=ln, api="len"), "len differs")
-        if len(out.samples) < 2 and obs and q["win"] != "none":
+        if obs and q["win"] != "none" and not any("query" in x for x in out.samples):
             out.samples.append({"class": self.kind, "db": view, "history": [a for _l, a, _g in chain], "query": kw, "selected": obs})
 
     # -- state changing / round trip operations
@@ -316,7 +316,7 @@ class Replayer:
             if o != A.bag_of(args[0]):
                 out.fail(self.key(act, args, recv, "other-changed"), self.detail(view, chain, act, args, expected=A.bag_of(args[0]), observed=o), f"{act} changed the other database")
                 return
-        if len(out.samples) < 3 and act not in ADD and view and level > 1:
+        if act not in ADD and view and level > 1 and not any("records_after" in x for x in out.samples):
             out.samples.append({"class": self.kind, "history": [a for _l, a, _g in chain] + [act], "args": args if act != "Subset" else A.query_kwargs(args[0])[0], "records_after": to_view})
         if is_file(recv) and is_file(res):
             deeper = False  # objects sharing one file are not explored independently
@@ -461,7 +461,9 @@ def _run_group(key, view, succ, kinds, out_total):
     if chain is None:
         return
     h = zlib.crc32(key.encode())
-    if P["kinds_mode"] == "alternate" and not any(r["via"] == "ext" for r in view):
+    if len(kinds) == 1:
+        pass  # history mode: the job names the class
+    elif P["kinds_mode"] == "alternate" and not any(r["via"] == "ext" for r in view):
         # user-only states run on the user-only class and on ONE of the two file classes
         kinds = ("basic", "gff" if h % 2 else "gb")
     elif P["kinds_mode"] == "one" and not any(r["via"] == "ext" for r in view):
@@ -487,6 +489,8 @@ def _run_group(key, view, succ, kinds, out_total):
         out_total.byact.update(o.byact)
         if len(out_total.samples) < 4:
             out_total.samples.extend(o.samples[:2])
+        elif not any("records_after" in x for x in out_total.samples):
+            out_total.samples.extend(x for x in o.samples if "records_after" in x)
 
 
 def _shard_task(path):
@@ -505,9 +509,10 @@ def _shard_task(path):
     return out
 
 
-def _hist_task(key):
+def _hist_task(job):
+    key, kind = job
     out = Out()
-    _run_group(key, _G["views"][key], None, _params()["kinds"], out)
+    _run_group(key, _G["views"][key], None, (kind,), out)
     return out
 
 
@@ -685,7 +690,17 @@ def history(run, scratch, cfg, tag, totals, depth, follow_q, follow_ops, follow_
     _G["params"] = {"mode": "hist", "seed": run.seed, "workdir": str(scratch), "depth": depth, "follow_q": follow_q, "follow_ops": follow_ops,
                     "follow_subsets": follow_subsets, "kinds": KINDS, "kinds_mode": "alternate" if run.tier == "quick" else "all"}
     base = [k for k in sorted(raw) if add_path(k) is not None]
-    pool_run(_hist_task, base, run, totals)
+    jobs = []
+    for k in base:
+        ext = any(r["via"] == "ext" for r in views[k])
+        if ext:
+            ks = ("gff", "gb")
+        elif run.tier == "quick":  # user-only states: the user-only class and ONE of the two file classes
+            ks = ("basic", "gff" if zlib.crc32(k.encode()) % 2 else "gb")
+        else:
+            ks = KINDS
+        jobs.extend((k, kind) for kind in ks)
+    pool_run(_hist_task, jobs, run, totals)
     run.note(f"{tag}_states_buildable_by_add_calls", len(base))
     run.note(f"{tag}_spec_states", len(views))
     _G["raw"], _G["views"], _G["parsed"] = {}, {}, {}
